@@ -243,8 +243,9 @@ theorem f26dot6_f64_roundtrip (raw : Int) (h : inI32 raw) :
     fromFloat F26Dot6 (toFloat F26Dot6 raw) = raw :=
   float_roundtrip _ f26dot6_ok raw (by unfold inI32 at h; simp [F26Dot6]; omega)
 
-/-- `Fixed::to_f32` / `F26Dot6::to_f32` (documented as lossy) are exact precisely while the raw
-value has at most 24 significant bits; in particular for `|raw| < 2^24`. -/
+/-- `Fixed::to_f32` / `F26Dot6::to_f32` (documented as lossy: the `i32 → f32` conversion keeps 24
+significant bits) are exact for every `|raw| < 2^24`, i.e. for 16.16 values of magnitude below 256
+and 26.6 values below 262144. -/
 theorem to_f32_exact_below_2_24 (k : Nat) (hk : k ≤ 149) (raw : Int) (h : raw.natAbs < 2 ^ 24) :
     toF32Lossy k raw =
       if raw = 0 then .fin false 0 0 else .fin (decide (raw < 0)) raw.natAbs (-(k : Int)) := by
